@@ -470,6 +470,9 @@ impl Runner {
         self.rt_flavor = sc.get("rt").and_then(|x| x.as_str()).unwrap_or("ct").to_string();
         self.session_on = sc.get("session").and_then(|x| x.as_bool()).unwrap_or(false);
         *self.session.lock().unwrap() = None;
+        // the process umask the operations of this scenario run under (what is restored does not depend on it)
+        let um = sc.get("umask").and_then(|x| x.as_u64()).unwrap_or(0o022) as u32;
+        nix::sys::stat::umask(nix::sys::stat::Mode::from_bits_truncate(um & 0o777));
         tree::NOW_BASE.store(now_s() as i64, std::sync::atomic::Ordering::SeqCst);
         tree::BIG.store(sc.get("mode").and_then(|x| x.as_str()) == Some("big"), std::sync::atomic::Ordering::SeqCst);
         self.log.emit(json!({"ev": "scenario", "id": self.scen_id, "props": sc.get("props").cloned().unwrap_or(json!([])),
